@@ -432,13 +432,23 @@ func (g *GeneratorBase) Clean() error {
 	}
 
 	genfile := g.fileName("", false)
+	// the pattern is matched against the entries of the package directory only: the directory path itself is the
+	// user's [dir] argument and must not be read as a pattern (a path holding ?, * or [ would match other
+	// directories, or be malformed)
 	pattern := fmt.Sprintf("*.%s%s*.go", Shoot, g.subCmd)
-	glob := filepath.Join(g.commonFlags.Dir, pattern)
-	matches, err := filepath.Glob(glob)
+	entries, err := os.ReadDir(g.commonFlags.Dir)
 	if err != nil {
 		return err
 	}
-	for _, file := range matches {
+	for _, entry := range entries {
+		ok, err := filepath.Match(pattern, entry.Name())
+		if err != nil {
+			return err
+		}
+		if !ok {
+			continue
+		}
+		file := filepath.Join(g.commonFlags.Dir, entry.Name())
 		if filepath.Base(file) == genfile {
 			continue
 		}
